@@ -159,9 +159,13 @@ def _nt_pt(dr, dc, S, prefix=""):
 # 1. partial transpose: index model, output shape, dtype
 # ------------------------------------------------------------------------------------------
 @st.composite
-def _pt_case(draw, nmax_sq=5, nmax_rect=4, budget=64):
+def _pt_case(draw, nmax_sq=5, nmax_rect=4, budget=64, shuffle=False):
     kind, dr, dc = draw(_pt_dims(nmax_sq=nmax_sq, nmax_rect=nmax_rect, budget=budget))
     n = len(dr)
+    if shuffle:
+        # the size budget pushes the non-trivial factors to the front; put them at drawn positions
+        order = list(draw(st.permutations(list(range(n)))))
+        dr, dc = [dr[i] for i in order], [dc[i] for i in order]
     S, _ = draw(_ordered_subset(n))
     return {
         "kind": kind,
@@ -439,7 +443,7 @@ def nt_re_omitted(case):
 SUBCHECKS = [
     SubCheck("pt_index", check_pt_index, _pt_case, nt_pt, quick=24000, thorough=400000),
     # larger systems (up to 9 / 7 subsystems, totals up to 512): the property is not bounded in size
-    SubCheck("pt_index_large", check_pt_index, lambda: _pt_case(nmax_sq=9, nmax_rect=7, budget=512), nt_pt, quick=400, thorough=8000),
+    SubCheck("pt_index_large", check_pt_index, lambda: _pt_case(nmax_sq=12, nmax_rect=8, budget=256, shuffle=True), nt_pt, quick=900, thorough=18000),
     SubCheck("pt_laws", check_pt_laws, _pt_law_case, nt_pt_laws, quick=6000, thorough=100000),
     SubCheck("pt_product", check_pt_product, _pt_prod_case, nt_pt_prod, quick=6000, thorough=100000),
     SubCheck("pt_cvxpy", check_pt_cvxpy, _pt_cvx_case, nt_pt_cvx, quick=4000, thorough=70000),
